@@ -132,6 +132,38 @@ Theorem tag_aggregate_form : forall kws, forallb tag_kw kws = true ->
 Proof. exact tag_aggregate_lemma. Qed.
 Print Assumptions tag_aggregate_form.
 
+(* ---------- history: the same dictionary OBJECTS reaching the tag again and again ---------- *)
+
+(* One call of HtmlAttrsNode.render on dictionary objects (heap = the caller's dictionaries, arguments = references;
+   the model states the TARGET of every write): the result is the pure function of the contents, and every object that
+   existed before the call - in particular `attrs` and `defaults` - keeps its contents. *)
+Theorem render_leaves_callers_dicts : forall h a d kw,
+  ref_ok (length h) a = true -> ref_ok (length h) d = true ->
+  fst (render_heap h a d kw) = html_attrs (deref h a) (deref h d) kw /\
+  firstn (length h) (snd (render_heap h a d kw)) = h /\
+  (length h <= length (snd (render_heap h a d kw)))%nat.
+Proof. exact render_heap_frame. Qed.
+Print Assumptions render_leaves_callers_dicts.
+
+(* ANY history of calls sharing objects (the same `defaults` / `attrs` dictionaries in a loop or across renders, any
+   other arguments in between): every call renders the pure function of the ORIGINAL contents - nothing an earlier
+   call received leaks into a later one - and the objects end with their original contents. *)
+Theorem history_independent : forall h0 cs,
+  forallb (fun c : option nat * option nat * list ((str * bool) * aval) =>
+             ref_ok (length h0) (fst (fst c)) && ref_ok (length h0) (snd (fst c))) cs = true ->
+  fst (run_heap h0 cs) = map (fun c => html_attrs (deref h0 (fst (fst c))) (deref h0 (snd (fst c))) (snd c)) cs /\
+  firstn (length h0) (snd (run_heap h0 cs)) = h0.
+Proof. exact history_independent_lemma. Qed.
+Print Assumptions history_independent.
+
+(* The aliasing variant (merge performed in the caller's `defaults` object) is right on its first call and wrong on
+   the second: why a check that renders every case once cannot see it. *)
+Theorem aliased_render_refuted : exists h a1 a2 d,
+  fst (render_heap_aliased h a1 d []) = html_attrs (deref h a1) (deref h d) [] /\
+  fst (render_heap_aliased (snd (render_heap_aliased h a1 d [])) a2 d []) <> html_attrs (deref h a2) (deref h d) [].
+Proof. exact aliased_render_leaks. Qed.
+Print Assumptions aliased_render_refuted.
+
 (* ---------- slot content ---------- *)
 
 (* EXACTLY ONCE, through every chain of handing the normalised slot on to further Component.render calls
@@ -221,6 +253,13 @@ Example tag_aggregate_example :
   forallb tag_kw kws = true /\
   html_attrs_tag (map kwp kws) = Out [99;61;34;65;32;66;32;120;32;121;34]%N.
 Proof. vm_compute. split; reflexivity. Qed.
+
+(* three calls sharing one defaults object {c: d}: attrs {x: True}, then {}, then {c: A} *)
+Example history_example :
+  let h0 := [[(([99], false), VStr [100])]; [(([120], false), VTrue)]; []; [(([99], false), VStr [65])]]%N in
+  fst (run_heap h0 [(Some 1, Some 0, []); (Some 2, Some 0, []); (Some 3, Some 0, [])]%nat)
+  = [Out [99;61;34;100;34;32;120]; Out [99;61;34;100;34]; Out [99;61;34;65;34]]%N.
+Proof. reflexivity. Qed.
 
 (* a TypeError case of merge_order: appending to True *)
 Example merge_type_error :
